@@ -165,7 +165,7 @@ def validate(ctx: Ctx, traces: list[dict], name: str) -> None:
 
 
 # ---- random larger DAGs ----------------------------------------------------------------------------
-def random_desc(rng: random.Random, nf: int) -> dict:
+def random_desc(rng: random.Random, nf: int, picker: bool = False) -> dict:
     roots = ["x", "y", "z", "w"]
     funcs = []
     avail = list(roots)
@@ -193,6 +193,9 @@ def random_desc(rng: random.Random, nf: int) -> dict:
                       "retnone": rng.random() < (0.35 if i == 0 else 0.1),                      # None is an ordinary result value
                       "outperm": len(outs) > 1 and rng.random() < 0.4,     # tuple outputs renamed by a permutation
                       "outrenamed": rng.random() < 0.2,
+                      # custom output_picker (the function returns a mapping keyed by its output names): only where the
+                      # caller never renames outputs afterwards (a user's picker cannot follow a rename either)
+                      "picker": picker and len(outs) > 1 and rng.random() < 0.35,
                       "renamed": [p for p in params if rng.random() < 0.3]})   # underlying argument named differently
         avail += outs
     # consistent defaults: one default value per name (already by construction)
@@ -286,7 +289,7 @@ def run(ctx: Ctx) -> None:
     rtraces = []
     for _ in range(150 if quick else 2500):
         build.LOG.clear()
-        td = random_desc(rng, rng.randint(3, 6))
+        td = random_desc(rng, rng.randint(3, 6), picker=True)
         rtraces.append(random_history(rng, td))
     for t in rtraces:
         ctx.case({"d": t["desc"], "n": len(t["ev"])})
